@@ -118,8 +118,9 @@ func (r *Router) GetRule(db, table string) Rule {
 	}
 	rule := r.rules[db][table]
 	if rule == nil {
-		//set the database of default rule
-		r.defaultRule.(*BaseRule).db = db
+		// The default rule is shared by every session of the namespace: do not
+		// record the caller's database in it (callers already know the database
+		// they asked about, and nothing reads it back from the default rule).
 		return r.defaultRule
 	} else {
 		return rule
